@@ -65,18 +65,45 @@ func runC15(cfg *vh.Config) error {
 			return terr
 		}
 		pkgSeen := map[string]bool{}
-		var pkgs []string
+		var allPkgs []string
 		for _, f := range c.Gen {
 			p := imagePackage(f.GetPackage())
 			if !pkgSeen[p] {
 				pkgSeen[p] = true
-				pkgs = append(pkgs, p)
+				allPkgs = append(allPkgs, p)
 			}
 		}
-		sort.Strings(pkgs)
+		sort.Strings(allPkgs)
+		// the image lists some of the packages; the others (and their sub-packages) are
+		// reached only through references: "indirect" packages of the API
+		pkgs := allPkgs
+		if len(allPkgs) > 1 && r.Chance(60) {
+			pkgs = nil
+			for _, p := range allPkgs {
+				if r.Chance(50) {
+					pkgs = append(pkgs, p)
+				}
+			}
+			if len(pkgs) == 0 {
+				pkgs = allPkgs[:1]
+			}
+			if len(pkgs) < len(allPkgs) {
+				c.Tags["image-with-unlisted-packages"]++
+			}
+		}
+		// the files APIFromImage's selector includes: package name has a listed prefix
+		var included []string
+		for _, f := range c.Gen {
+			for _, p := range pkgs {
+				if strings.HasPrefix(f.GetPackage(), p) {
+					included = append(included, f.GetName())
+					break
+				}
+			}
+		}
 		id := len(cases)
 		cases = append(cases, &c15case{id: id, c: c, term: term, collides: splitCollision(files), req: &Request{
-			ID: id, Prop: "C15", SetB64: base64.StdEncoding.EncodeToString(b), GenPaths: c.GenPaths(), Packages: pkgs,
+			ID: id, Prop: "C15", SetB64: base64.StdEncoding.EncodeToString(b), GenPaths: included, Packages: pkgs,
 		}})
 		for t, k := range c.Tags {
 			res.Distribution["feature:"+t] += k
@@ -170,7 +197,7 @@ func runC15(cfg *vh.Config) error {
 				}
 			}
 		}
-		cf.Terms = append(cf.Terms, fmt.Sprintf("C15Case\n  %s\n  %s\n  %d %s\n  %d %s", c.term, listStr(c.c.GenPaths()), ce, first, ci, second))
+		cf.Terms = append(cf.Terms, fmt.Sprintf("C15Case\n  %s\n  %s\n  %d %s\n  %d %s", c.term, listStr(c.req.GenPaths), ce, first, ci, second))
 		res.Cases = append(res.Cases, vh.CaseRec{Case: c.id, Stream: "roundtrip", Input: input, Impl: summarize(obs[c.id])})
 		if c.id < 3 {
 			res.Sample(map[string]any{"files": c.c.GenPaths(), "features": c.c.Tags, "observed": summarize(obs[c.id])}, 3)
